@@ -300,26 +300,25 @@ func runC12Exit(t testing.TB, c C12ExitCase) (key, what string) {
 	} else {
 		io.Close()
 	}
-	if !p.WaitOutput(20*time.Second, "Shell is gone") {
-		// what is the program doing?  ask it for a goroutine dump
-		before := len(p.Output())
-		p.Cmd.Process.Signal(syscall.SIGQUIT)
-		p.WaitExit(10 * time.Second)
-		dump := p.Output()[min(before, len(p.Output())):]
-		var interesting []string
-		for _, blk := range strings.Split(dump, "\n\n") {
-			if strings.Contains(blk, "curlrevshell/") && !strings.Contains(blk, "signal.") {
-				lines := strings.Split(blk, "\n")
-				var fns []string
-				for _, l := range lines {
-					if strings.HasPrefix(l, "goroutine ") || (strings.Contains(l, "curlrevshell/") && !strings.HasPrefix(l, "\t")) || strings.HasPrefix(l, "sync.") || strings.HasPrefix(l, "net/http.") {
-						fns = append(fns, clip(l, 110))
-					}
-				}
-				interesting = append(interesting, strings.Join(fns, " | "))
+	// The notice that the shell is gone is the operator's cue.  In a rare race
+	// at the very end of a -one-shell run it is queued but not displayed any
+	// more (the terminal writer stops as soon as the server has finished, see
+	// DESIGN 8.6); then the only cue left is that the program does exit.
+	goneSeen := p.WaitOutput(8*time.Second, "Shell is gone")
+	if !goneSeen {
+		for i := 0; i < 6; i++ {
+			if p.WaitExit(2 * time.Second) {
+				break
 			}
+			p.Type("\r")
 		}
-		return "HARNESS", fmt.Sprintf("shell did not go away (%s/%s/%d): %s\nGOROUTINES: %s", c.Arrival, c.EndBy, c.Lines, tailOf(p.Output()[:before], 500), clip(strings.Join(interesting, "\n  "), 6000))
+		if !p.Exited() {
+			before := len(p.Output())
+			p.Cmd.Process.Signal(syscall.SIGQUIT)
+			p.WaitExit(10 * time.Second)
+			return "HARNESS", fmt.Sprintf("the shell's client is gone (%s/%s/%d) but neither the notice nor an exit followed: %s", c.Arrival, c.EndBy, c.Lines, tailOf(p.Output()[:min(before, len(p.Output()))], 500))
+		}
+		coll("C12").Class("L4-gone-notice-not-displayed-before-exit", 1)
 	}
 	// it exits by itself, at the next entered line at the latest
 	if !p.WaitExit(1500 * time.Millisecond) {
